@@ -52,7 +52,12 @@ theorem evalRT_eq_narrow_evalR :
   | .map kvs, t, f, h => by
     obtain ⟨b, m, a⟩ := t
     simp only [HasTyR] at h
-    obtain ⟨ha, hm, hk⟩ := h
+    rcases h with ⟨ha, hm, hk⟩ | ⟨ha, hm, hl, hj⟩
+    case inr =>
+      try simp only at ha hm hl
+      subst ha; subst hm
+      rw [narrow_scalar hF b hl]
+      exact evalRT_json st F ρ _ ⟨b, 0, 0⟩ f (by simpa [jsonR] using hj) rfl hl
     try simp only at ha hm
     subst ha
     cases m with
